@@ -239,8 +239,9 @@ def run(c, prog, ctx):
     sb = skip_loop[3]
     good = len(sb) == 1 and sb[0][0] == "set" and m.var("lvl2", sb[0][1]) and m.same_int(sb[0][2], lambda cnt, lv, n: lv + 1, ("count", "lvl2"), D_BODY)
     c.inst("R4.skip-body", "skip loop only increments level", good, "statements %s" % [(s[0], sh(s[1]), sh(s[2])) for s in sb if s[0] == "set"], f.where(), f.path)
-    st = [s for s in mid2 if s[0] == "set"]
-    good = (len(mid2) == 1 and len(st) == 1 and m.var("result", st[0][1]) and st[0][2][0] == "idx" and m.var("inner", st[0][2][1])
+    # statements that only introduce another captured value are judged where that value is used, not here
+    st = [s for s in mid2 if s[0] == "set" and s[2][0] == "idx"]
+    good = (len(st) == 1 and all(s[0] == "set" for s in mid2) and m.var("result", st[0][1]) and st[0][2][0] == "idx" and m.var("inner", st[0][2][1])
             and m.same_int(st[0][2][2], lambda cnt, lv, n: lv, ("count", "lvl2"), D_SET))
     c.inst("R4.sweep-start", "result := inner[lowest set bit of count]", good, "statements %s" % [(sh(s[1]), sh(s[2])) for s in st], f.where(), f.path)
     # ---- sweep loop
